@@ -410,6 +410,16 @@ func (s *Sim) DialTo(l *Listener, clientAddr, accAddr string) *Conn {
 	s.Conns = append(s.Conns, c)
 	s.logLocked("  dial c" + strconv.Itoa(id) + " " + clientAddr)
 	s.mu.Unlock()
+	if s.teardown.Load() {
+		// an actor that wakes up in teardown and dials: nobody will accept or close this connection
+		// any more, so it is born closed and every read or write on it fails at once
+		c.Client().Close()
+		c.Server().Close()
+		c.mu.Lock()
+		c.dir[0].eof, c.dir[1].eof = true, true
+		c.mu.Unlock()
+		return c
+	}
 	l.mu.Lock()
 	l.queue = append(l.queue, c)
 	w := l.waiter
